@@ -907,6 +907,12 @@ func WrapTr(e *m.Expr, next *int, keep func() bool) *m.Expr {
 			continue
 		}
 		n.A[i] = WrapTr(a, next, keep)
+		if keep != nil && keep() {
+			// ... and some keep their own head (a literal stays a literal, an operator
+			// application stays one) while everything inside them is wrapped (a pass may
+			// treat operands by their syntactic form)
+			bare[i] = true
+		}
 	}
 	wrap := func(i int) {
 		if bare[i] || (n.A[i].K == "call" && n.A[i].Name == "tr") {
